@@ -8,6 +8,8 @@ import (
 	"strings"
 )
 
+var _ = ast.Inspect
+
 func init() {
 	propertyRules["C11"] = []ruleFn{rulePrefix, ruleIdx, ruleOptionalCB, rulePreCommitEnabled, ruleDeref, ruleStaleIndex, ruleDefs}
 	propertyExplain["C11"] = "G-PREFIX: in each handler every effect site (state write other than the liveness note, effectful callback, typed send, call of an effectful function) is behind that handler's admission condition, so inadmissible or duplicate inputs reach no effect; IDX: every index into a per-validator table or the validator list is a range key, an admitted sender index, MyIndex under MyIndex>=0, or the primary index; G-OPTIONAL-CB: callbacks checkConfig allows to be nil are called only under their enabling fact; G-DEREF: stored slots are dereferenced only when known non-nil; STALE-INDEX. Panic freedom is decided for these classes only (not for nil results of application callbacks, type assertions in payload implementations, division by a zero increment, misuse before Start)."
@@ -20,36 +22,31 @@ func (c *RC) handlers() map[string]*FuncInfo {
 	if or == nil {
 		return out
 	}
-	info := or.Pkg.TypesInfo
-	w := &Walker{A: c.A, Fn: or, info: info}
-	ast.Inspect(or.Decl.Body, func(n ast.Node) bool {
-		sw, ok := n.(*ast.SwitchStmt)
-		if !ok || sw.Tag == nil {
-			return true
+	kinds := []string{"ChangeViewType", "PrepareRequestType", "PrepareResponseType", "PreCommitType", "CommitType", "RecoveryRequestType", "RecoveryMessageType"}
+	m := msgParam()
+	ty := getter("ConsensusMessage", "Type", m, false)
+	// a handler of kind K is a function called from OnReceive with the payload, at a site where every path knows Type() == K
+	for _, s := range c.A.FnSites[or] {
+		if s.Kind != "call" || s.Target == nil || s.Target == or || len(s.Snaps) == 0 {
+			continue
 		}
-		for _, cl := range sw.Body.List {
-			cc := cl.(*ast.CaseClause)
-			var target *FuncInfo
-			for _, st := range cc.Body {
-				if es, ok := st.(*ast.ExprStmt); ok {
-					if call, ok := es.X.(*ast.CallExpr); ok {
-						if t := w.staticCallee(call); t != nil && len(call.Args) == 1 {
-							target = t
-						}
-					}
+		for _, k := range kinds {
+			all := true
+			for _, sn := range s.Snaps {
+				if len(sn.Args) != 1 || sn.Args[0].S != "p:msg" {
+					all = false
+					break
+				}
+				if v, ok := sn.F.value(mkAtom("eq", ty, constTerm(k))); !ok || !v {
+					all = false
+					break
 				}
 			}
-			if target == nil {
-				continue
-			}
-			for _, e := range cc.List {
-				if k := constName(info, e); k != "" {
-					out[k] = target
-				}
+			if all {
+				out[k] = s.Target
 			}
 		}
-		return true
-	})
+	}
 	return out
 }
 
